@@ -66,6 +66,17 @@ def renderings(db):
     return out
 
 
+_DECOY = []
+
+
+def _decoy():
+    if not _DECOY:
+        from pydbml import PyDBML
+        _DECOY.append(PyDBML('Table decoy_a {\n  id int [pk]\n  b_id int [ref: > decoy_b.id]\n}\nTable decoy_b {\n  id int [pk]\n}\n'
+                             'Enum decoy_e {\n  x\n}\nRef: decoy_a.id <> decoy_b.id\n'))
+    return _DECOY[0]
+
+
 class Editor:
     def __init__(self, rng, db):
         self.rng = rng
@@ -251,6 +262,9 @@ def run_history(sh, db, origin, rng, tracer, suite='random', maxlen=12, case_see
         live = renderings(db)
         tracer.phase = 'clone'
         try:
+            # an unrelated database is rendered in between: whatever a renderer might remember about `db`
+            # (e.g. a cache keyed on equal content) must not be able to answer for the rebuilt copy
+            renderings(_decoy())
             ref = renderings(clone(db))
         except Exception as e:  # noqa
             sh.count('obs.clone_failed.' + type(e).__name__)
